@@ -258,7 +258,7 @@ def run_case(case: dict[str, Any]) -> dict[str, Any]:
                         await asyncio.sleep(case["pause_before_read"])
                     await op("read", tr.read(timeout=T))
                     if case.get("second_read") and rec["ops"][-1][1] in ("ok", "timeout"):
-                        await op("read2", tr.read(timeout=T if T is not None else 3.0))
+                        await op("read2", tr.read(timeout=T if (T is not None or case.get("read2_no_timeout")) else 3.0))
                 await op("close", tr.close())
                 await op("close2", tr.close())
             elif level == "client":
@@ -275,6 +275,11 @@ def run_case(case: dict[str, Any]) -> dict[str, Any]:
                 else:
                     cl = UDSClient(tr, timeout=3.0 if silent else 1.0, max_retry=retries)
                     r = await op("request", cl.request(service.ReadDataByIdentifierRequest(did)))
+                if case.get("late_restart"):
+                    # the peer stayed away for longer than this request's reconnect attempts; once it is back, the NEXT request
+                    # has to get through (the first one may legitimately have ended with the connection error)
+                    await asyncio.sleep(case["late_restart"])
+                    r = await op("request-later", cl.request(service.ReadDataByIdentifierRequest(did)))
                 rec["client_reply"] = getattr(r, "pdu", None) if r is not None else None
                 await op("close", cl.transport.close())
                 await op("close2", cl.transport.close())
@@ -318,7 +323,7 @@ def check(case: dict[str, Any]) -> list[tuple[str, str]]:
                 out.append((f"C08/{proto}/{level}/fabricated-data/{kind}", f"{ctx}: read returned {val.hex() if isinstance(val, bytes) else val}, peer's complete reply is {reply.hex()} (fully sent: {full_reply_sent})"))
                 return out
         if level == "transport" and name in ("connect", "write", "read", "read2"):
-            if name == "read2" and T is None:
+            if name == "read2" and T is None and not case.get("read2_no_timeout"):
                 continue  # issued with its own 3 s timeout after a successful read: ending by timeout is fine
             limit = (T if T is not None else 0.0) + ACK_TIME[proto] + 0.1
             if T is None and kind in ("eof", "reset") and peer.cut_time is not None:
@@ -394,6 +399,15 @@ def enumerate_cases(did: int, level: str, restart: float, max_retry: int, protos
             # the complete reply followed by end-of-stream, read only after both have arrived: what was received is delivered first
             cases.append({"proto": proto, "level": level, "did": did, "cut": n, "kind": "eof", "timeout": 1.5, "restart": 0.0,
                           "max_retry": max_retry, "second_read": True, "pause_before_read": 0.5})
+            # ... and read once more without any caller timeout: the end of the stream is known, the read must not wait for ever
+            cases.append(dict(cases[-1], timeout=None, read2_no_timeout=True))
+        if level == "client" and proto in ("tcp-lines", "unix-lines"):
+            # the lines transports try to reconnect once per retry: a peer that stays away for 1 s outlasts the request; the request
+            # after that (peer back) must recover
+            for cut in range(0, n + 1):
+                for kind in ("eof", "reset"):
+                    cases.append({"proto": proto, "level": level, "did": did, "cut": cut, "kind": kind, "timeout": 1.0, "restart": 1.0,
+                                  "max_retry": max_retry, "second_read": True, "late_restart": 2.0, "retry_via": "client"})
         if level == "client":
             # the same exchange with a ResponsePending in front of the final reply: every cut point once more, with the retries
             # the case asks for and with none left (the loss then has to surface as the error the statement names)
@@ -433,7 +447,7 @@ def run_shard(spec: dict[str, Any], seed: int) -> Collector:
         ex = dict(ex, level=spec["level"])
         for case in enumerate_cases(ex["did"], ex["level"], ex["restart"], ex["max_retry"], spec["protos"]):
             res = check(case)
-            col.case((case["proto"], case["level"], case["did"], case["cut"], case["kind"], case["timeout"], case["restart"], case["max_retry"], bool(case.get("pending")), case.get("retry_via"), case.get("restart_mode"), case.get("pause_before_read")),
+            col.case((case["proto"], case["level"], case["did"], case["cut"], case["kind"], case["timeout"], case["restart"], case["max_retry"], bool(case.get("pending")), case.get("retry_via"), case.get("restart_mode"), case.get("pause_before_read"), case.get("late_restart"), case.get("read2_no_timeout")),
                      nontrivial(case), cls=f"{case['proto']}/{case['level']}/{case['kind']}" + ("/no-timeout" if case["timeout"] is None else "")
                      + ("/after-pending" + ("/no-retry-left" if case["max_retry"] == 0 else "") if case.get("pending") else ""), sample=case)
             for b, m in res:
